@@ -82,9 +82,6 @@ def run(ctx):
     folder = Folder(repo)
     f = m.func("string")
     ctx.analysed(f)
-    loops = [n for n in f.node.body if isinstance(n, (ast.For, ast.While))]
-    ctx.require(len(loops) == 1 and isinstance(loops[0], ast.For) and isinstance(loops[0].iter, ast.Name) and loops[0].iter.id == f.params()[0],
-                "writer.string is no longer a single top-level loop over its argument")
     classes = breakpoints(f.node, m)
     ctx.count("classes", len(classes))
     for lo, hi in classes:
@@ -184,14 +181,8 @@ def _check_class(ctx, repo, folder, f, lo, hi):
     if isinstance(r, Raised):
         ctx.check("literal", inst, False, f, "U+%04X..U+%04X raises" % (lo, hi), "string() raises %s for %s" % (r, inst), node=r.node)
         return
-    # result is ''.join(list)
-    items = None
-    if isinstance(r, Sym) and r.op == "call" and isinstance(r.args[0], Sym) and r.args[0].op == "attr" and r.args[0].args[1] == "join" and r.args[0].args[0] == "":
-        items = r.args[1] if len(r.args) > 1 and isinstance(r.args[1], list) else None
-    elif isinstance(r, StrV):
-        items = [r]
-    if items is None:
-        raise AnalysisError("writer.string: result shape not understood: %s" % show(r)[:120])
+    items = []
+    _flatten_str(r, items)
     toks = _tokens(items, code)
     for t in toks:
         if t[0] == "other" and isinstance(t[1], (Sym, Lin)):
@@ -201,6 +192,47 @@ def _check_class(ctx, repo, folder, f, lo, hi):
     ctx.check("literal", inst, verdict, f, "%s -> %s" % (_clsname(lo, hi), shown[:140]),
               "for %s string() writes %s: %s" % (inst, shown[:300], why),
               witness={"class": [lo, hi]}, detail="%s -> %s (%s)" % (inst, shown[:120], why))
+
+
+def _flatten_str(v, out):
+    """flatten string building terms (join of a list, +, % / format with %s of a nested string) into a piece list"""
+    if isinstance(v, (str, StrV)):
+        out.append(v)
+    elif isinstance(v, (list, tuple)):
+        for x in v:
+            _flatten_str(x, out)
+    elif isinstance(v, Sym) and v.op == "call" and v.args and isinstance(v.args[0], Sym) and v.args[0].op == "attr" \
+            and v.args[0].args[1] == "join" and v.args[0].args[0] == "" and len(v.args) == 2:
+        _flatten_str(v.args[1], out)
+    elif isinstance(v, Sym) and v.op == "strop" and v.args[0] == "Add":
+        _flatten_str(v.args[1], out)
+        _flatten_str(v.args[2], out)
+    elif isinstance(v, Sym) and v.op == "concat":
+        for x in v.args:
+            _flatten_str(x, out)
+    elif isinstance(v, Sym) and v.op == "strformat":
+        # expand %s / {} of nested string terms, keep numeric conversions for the piece normaliser
+        tmpl, args = v.args
+        args = args if isinstance(args, tuple) else (args,)
+        nested = [a for a in args if isinstance(a, (StrV, list)) or (isinstance(a, Sym) and a.op in ("call", "strop", "strformat", "concat"))]
+        if not nested:
+            out.append(v)
+            return
+        import re as _re
+        parts = _re.split(r"(%s|\{\})", tmpl)
+        ai = 0
+        for part in parts:
+            if part in ("%s", "{}"):
+                if ai >= len(args):
+                    raise AnalysisError("writer.string: formatting term with too few arguments: %s" % show(v)[:120])
+                _flatten_str(args[ai], out)
+                ai += 1
+            elif part:
+                if "%" in part.replace("%%", "") or "{" in part.replace("{{", ""):
+                    raise AnalysisError("writer.string: mixed formatting term outside the fragment: %s" % show(v)[:120])
+                out.append(part.replace("%%", "%").replace("{{", "{").replace("}}", "}"))
+    else:
+        out.append(v)
 
 
 def _clsname(lo, hi):
@@ -251,7 +283,16 @@ def _tokens(items, code):
 
 
 def _is_pyescape(v, code):
-    # c.encode('unicode-escape').decode('ascii')
+    # c.encode('unicode-escape').decode('ascii')  or  str(c.encode('unicode-escape'), 'ascii')
+    try:
+        if v.op == "str" and len(v.args) == 2 and v.args[1] in ("ascii", "latin-1", "utf-8"):
+            enc_call = v.args[0]
+            enc = enc_call.args[0]
+            if enc.op == "attr" and enc.args[1] == "encode" and enc_call.args[1] in ("unicode-escape", "unicode_escape"):
+                s_ = enc.args[0]
+                return isinstance(s_, StrV) and len(s_.chars) == 1 and (s_.chars[0] == code or (isinstance(s_.chars[0], Bits) and isinstance(code, Bits) and s_.chars[0] == code))
+    except (AttributeError, IndexError):
+        pass
     try:
         if v.op != "call":
             return False
@@ -371,20 +412,59 @@ def _lex(toks, code, y, lo, hi):
 
 
 def _check_visit_constant(ctx, m):
+    """Writer.visit_constant is executed abstractly with a str constant: what reaches self.write must be string(cst)."""
+    repo = ctx.repo
+    folder = Folder(repo)
     w = m.cls("Writer")
     f = w.lookup("visit_constant")
     ctx.require(f is not None, "Writer.visit_constant vanished")
     ctx.analysed(f)
-    param = f.params()[1]
-    ok = False
-    for n in walk_no_nested(f.node):
-        if isinstance(n, ast.If) and isinstance(n.test, ast.Call) and ast.unparse(n.test.func) == "isinstance" and len(n.test.args) == 2 \
-                and ast.unparse(n.test.args[0]) == param and "str" in ast.unparse(n.test.args[1]):
-            for c in ast.walk(ast.Module(body=n.body, type_ignores=[])):
-                if isinstance(c, ast.Call) and isinstance(c.func, ast.Name) and c.func.id == "string" and c.args and ast.unparse(c.args[0]) == param:
-                    ok = True
-    ctx.check("routing", "Writer.visit_constant routes str through string()", ok, f, "visit_constant",
-              "string constants are no longer written through string() in Writer.visit_constant")
+    sfunc = m.func("string")
+    cst = StrV([Bits.source([("s", "k", i) for i in range(16)], False)])
+    written = []
 
+    def func_hook(it, target, args, kwargs, e, func):
+        if target is sfunc or target.qualname == "string":
+            return Sym("string()", *args)
+        if target.cls is not None and target.name in ("write", "write_ext", "write_ind", "end_ins") and target.cls.name == w.name:
+            written.append((target.name, list(args)))
+            return None
+        return NotImplemented
+
+    def method(it, recv, name, args, kwargs, e, func):
+        from ..absint import Obj
+        if isinstance(recv, Obj) and name in ("write", "write_ext", "write_ind", "end_ins"):
+            written.append((name, list(args)))
+            return None
+        return NotImplemented
+
+    def run(asg):
+        from ..absint import Obj
+        del written[:]
+        it = Interp(repo, folder, asg=dict(asg), hooks={"func": func_hook, "method": method, "inline_funcs": {"*module*"}, "no_inline": {"string"}})
+        o = Obj(w, "writer")
+        it.call_function(f, [cst], recv=o)
+        return [x for x in written]
+
+    res = explore(run)
+    ok = bool(res)
+    why = ""
+    for asg, r in res:
+        if isinstance(r, Raised):
+            raise AnalysisError("Writer.visit_constant: abstract run raises %s" % r)
+        texts = [a[0] for name, a in r if name == "write" and a]
+        if not texts:
+            raise AnalysisError("Writer.visit_constant: no write() observed in the abstract run")
+        t = texts[0]
+        if t == Sym("string()", cst):
+            continue
+        if isinstance(t, Sym) and t.op == "string()":
+            ok, why = False, "string() is applied to %s, not to the constant" % show(t.args[0])[:80]
+        elif isinstance(t, (StrV, str)) or (isinstance(t, Sym) and t.op in ("strformat", "strop", "repr") and "string()" not in show(t)):
+            ok, why = False, "the text written for a str constant is %s; it does not go through string()" % show(t)[:120]
+        else:
+            raise AnalysisError("Writer.visit_constant: written text %s is outside the interpreter's fragment" % show(t)[:120])
+    ctx.check("routing", "Writer.visit_constant routes str through string()", ok, f, "visit_constant",
+              "string constants are not written through string() in Writer.visit_constant: %s" % why)
 
 MUTATION_TARGETS = [(WRITER, "string"), (WRITER, "Writer.visit_constant")]
